@@ -183,7 +183,7 @@ pub fn show_srv(s: &Script) -> String {
 
 // ------------------------------------------------------------------------------- Coq terms
 
-fn coq_op(o: &Op) -> String {
+pub(crate) fn coq_op(o: &Op) -> String {
     match o {
         Op::Poll => "OPoll".into(),
         Op::Req { id, dl, tr, body } => format!("OCtl (TDeliver (MReq {id} {dl} {tr} {body}))"),
@@ -234,7 +234,7 @@ pub enum Recv {
     Cancel { id: u64, tr: u64 },
 }
 
-fn coq_sent(s: &Sent) -> String {
+pub(crate) fn coq_sent(s: &Sent) -> String {
     let b = match &s.body {
         Body::Ok(v) => format!("BOk {v}"),
         Body::HErr => "BErr".into(),
@@ -244,7 +244,7 @@ fn coq_sent(s: &Sent) -> String {
     format!("mkresp {} ({})", s.id, b)
 }
 
-fn coq_recv(r: &Recv) -> String {
+pub(crate) fn coq_recv(r: &Recv) -> String {
     match r {
         Recv::Req { id, dl, tr, body } => format!("MReq {id} {dl} {tr} {body}"),
         Recv::Cancel { id, tr } => format!("MCancel {id} {tr}"),
@@ -295,24 +295,24 @@ impl Drop for ScriptedHandler {
     }
 }
 
-type Tr = STransport<Response<u64>, ClientMessage<u64>, Sent, Recv>;
-type Base = BaseChannel<u64, u64, Tr>;
+pub(crate) type Tr = STransport<Response<u64>, ClientMessage<u64>, Sent, Recv>;
+pub(crate) type Base = BaseChannel<u64, u64, Tr>;
 
-enum Chan {
+pub(crate) enum Chan {
     Plain(Pin<Box<Requests<Base>>>),
     Lim(Pin<Box<Requests<MaxRequests<Base>>>>),
 }
 
-type Item = Option<Result<InFlightRequest<u64, u64>, ChannelError<std::io::Error>>>;
+pub(crate) type Item = Option<Result<InFlightRequest<u64, u64>, ChannelError<std::io::Error>>>;
 
 impl Chan {
-    fn poll_next(&mut self, cx: &mut Context<'_>) -> Poll<Item> {
+    pub(crate) fn poll_next(&mut self, cx: &mut Context<'_>) -> Poll<Item> {
         match self {
             Chan::Plain(r) => r.as_mut().poll_next(cx),
             Chan::Lim(r) => r.as_mut().poll_next(cx),
         }
     }
-    fn gauges(&self) -> (usize, usize) {
+    pub(crate) fn gauges(&self) -> (usize, usize) {
         match self {
             Chan::Plain(r) => r.channel().verif_gauges(),
             Chan::Lim(r) => r.channel().get_ref().verif_gauges(),
@@ -344,7 +344,7 @@ struct Shadow {
     phase: Phase,
 }
 
-fn activity(e: &ChannelError<std::io::Error>) -> &'static str {
+pub(crate) fn activity(e: &ChannelError<std::io::Error>) -> &'static str {
     match e {
         ChannelError::Read(_) => "ARead",
         ChannelError::Ready(_) => "AReady",
